@@ -142,9 +142,13 @@ func runC08(c *sim.Ctx) *sim.Violation {
 		stream := append(append([]byte{}, prefixFrame...), frame...)
 		m := link.Mode{Chunk: t.Bool(1, 2), Stutter: t.Bool(1, 4), DataEOF: withData}
 		r := link.NewReader(c, stream, m).CutAt(len(prefixFrame)+k, E)
+		rd, rtype := link.WrapReader(c, r)
+		if rtype != "link.Reader" {
+			c.Count("probe.reader-seen-as-" + rtype)
+		}
 		c.Ev("cut", int64(k), int64(kind), int64(L))
 		if prefixFrame != nil {
-			o := ReadOne(r)
+			o := ReadOne(rd)
 			if o.Kind != "packet" {
 				if withData && k == 0 && o.Kind == "error" {
 					// the error arrived together with the last bytes of the
@@ -157,7 +161,7 @@ func runC08(c *sim.Ctx) *sim.Violation {
 			}
 		}
 		delivered0 := r.Delivered
-		o := ReadOne(r)
+		o := ReadOne(rd)
 		reg := c08Region(k, h, L)
 		c.Count("cut." + reg + "." + kindName)
 		if h > 2 && k > 1 && k < h {
